@@ -152,12 +152,6 @@ Section VerifyProofs.
   Notation hlogin := (hlogin ext_verify).
 
   (* ---------------------------------------------------------------- scheme dispatch *)
-  (* the digest is usable by the dispatch: under autodetect a "$2?$" digest needs the bound
-     _verify_bcrypt, and a 60-character one the loaded module *)
-  Definition dispatch_ok (e : enc) (st : hstate) (h : pystr) : Prop :=
-    e = EAuto -> bcrypt_prefix h = true ->
-    h_vb_bound st = true /\ (h_has_bcrypt st = true \/ bcrypt_shaped h = false).
-
   Lemma run_verify_detect : forall e st h pw, dispatch_ok e st h ->
     run_verify e st h pw = verify_as (detect e h) h pw.
   Proof.
@@ -213,10 +207,6 @@ Section VerifyProofs.
   Qed.
 
   (* ---------------------------------------------------------------- C05_htpasswd, file read at every login *)
-  (* the state's two flags as the (patched) start-up leaves them *)
-  Definition flags_ok (cfg : hconfig) (st : hstate) : Prop :=
-    h_enc cfg = EAuto -> h_vb_bound st = true.
-
   Lemma entry_dispatch_ok : forall cfg st lines l h, flags_ok cfg st ->
     first_entry (h_has_bcrypt st) lines l = Some h -> dispatch_ok (h_enc cfg) st h.
   Proof.
@@ -224,8 +214,6 @@ Section VerifyProofs.
     destruct (h_has_bcrypt st) eqn:Eb; [left; reflexivity|right].
     eapply first_entry_not_shaped; exact He.
   Qed.
-
-  Definition present (t : pystr) (sz mt : N) : hfile := {| f_text := FText t; f_size := sz; f_mtime := mt |}.
 
   Theorem c05_htpasswd_nocache : forall cfg st t sz mt l pw u,
     h_cache cfg = false -> flags_ok cfg st ->
@@ -269,13 +257,6 @@ Section VerifyProofs.
   Qed.
 
   (* ---------------------------------------------------------------- cache mode *)
-  (* the cached dict is what a re-read of `f` would produce *)
-  Definition coherent (st : hstate) (f : hfile) : Prop :=
-    exists b, read_file false (h_has_bcrypt st) f = ROk (h_tab st) b.
-
-  Definition stamp_differs (st : hstate) (f : hfile) : bool :=
-    negb (f_size f =? h_size st) || negb (f_mtime f =? h_mtime st).
-
   (* With the cache on, a login sees the file as it is now -- provided the cache is coherent or the
      stamp (size, mtime_ns) shows the change.  (A change that keeps both is invisible to the cache by
      design: that is the documented detection rule, and the hypothesis says so.) *)
